@@ -214,6 +214,21 @@ def valid_variations(data):
     function nested one and two levels deep; junk parameters on nested specs; observation through from_visibility with a
     nested visibility function"""
     out = []
+
+    def reordered(node):
+        if isinstance(node, dict):
+            return {k: reordered(node[k]) for k in reversed(list(node.keys()))}
+        if isinstance(node, list):
+            return [reordered(v) for v in node]
+        return node
+    out.append(('keys of every mapping in reverse order', reordered(copy.deepcopy(data))))
+    d = copy.deepcopy(data)
+    d['transition_functions'] = list(reversed(d['transition_functions']))
+    d['reward_functions'] = list(reversed(d['reward_functions']))
+    for space in ('state_space', 'observation_space'):
+        d[space]['objects'] = list(reversed(d[space]['objects']))
+        d[space]['colors'] = list(reversed(d[space]['colors']))
+    out.append(('lists (transitions, rewards, declared objects and colours) in reverse order', d))
     term = data['terminating_function']
     d = copy.deepcopy(data)
     d['terminating_function'] = {'name': 'reduce_any', 'terminating_functions': [copy.deepcopy(term)]}
